@@ -10,7 +10,9 @@ for sid in sorted(os.listdir(os.path.join(V, "seeded"))):
     s = tempfile.mkdtemp(prefix="evalseed.")
     try:
         shutil.copytree("/repo/src", s + "/src"); os.makedirs(s + "/tests"); shutil.copytree("/repo/tests/testdocs", s + "/tests/testdocs")
-        subprocess.run(["patch", "-p1", "-s", "-i", os.path.join(d, "patch.diff")], cwd=s, check=True)
+        if subprocess.run(["patch", "-p1", "-s", "-i", os.path.join(d, "patch.diff")], cwd=s).returncode != 0:
+            print(sid, "PATCH DOES NOT APPLY to the current /repo/src - rebase it")
+            continue
         t0 = time.time()
         env = dict(os.environ, VERIF_REPO_SRC=s + "/src", VERIF_MAX_MINIMISE="1", VERIF_EVIDENCE_DIR=s + "/evidence", VERIF_REPLAY_DIR=s + "/replays")
         r = subprocess.run(["./run_check.sh", prop, "quick"], cwd=V, env=env, capture_output=True, text=True)
